@@ -134,6 +134,7 @@ static SuperMatrix L, U; static int haveLU = 0;
 static int_t *perm_c = 0, *perm_r = 0; static int_t pn = 0;
 static superlumt_options_t opts; static int opts_live = 0; /* etree/colcnt/part allocated */
 static real_t *Rv = 0, *Cv = 0; static equed_t equed = NOEQUIL;
+static int workfill_mode = 0; static unsigned long long workfill_seed = 0; /* how a fresh caller buffer is filled: 0 0xA5, 1 small random ints, 2 zeros, 3 reuse the previous buffer as left */
 static void *userwork = 0; static long userwork_len = 0; static long userwork_alloc = 0; /* bytes allocated for the last caller buffer (kept after the call: 'stale' buffer) */
 #define REDZ 4096
 
@@ -236,6 +237,8 @@ int main(int argc, char **argv) {
     while (next_tok()) {
         if (!strcmp(tok, "ienv")) { for (int i = 1; i <= 8; i++) ienv_tab[i] = rd_int(); }
         else if (!strcmp(tok, "perturb")) { perturb_level = rd_int(); perturb_seed = (unsigned long long)rd_int(); }
+        else if (!strcmp(tok, "dynsnode")) { /* dynamic L-supernode storage scheme: selected by the library through this environment variable */
+            if (rd_int()) setenv("SuperLU_DYNAMIC_SNODE_STORE", "1", 1); else unsetenv("SuperLU_DYNAMIC_SNODE_STORE"); }
         else if (!strcmp(tok, "failat")) { vf_failat = rd_int(); vf_count = 0; vf_failed = 0; strcpy(vf_first_fail_site, "-"); }
         else if (!strcmp(tok, "ledger")) { /* ledger 1 : start logging;  ledger dump : the trace so far, the blocks still live with their sites,
                                               and which of them are reachable from what the caller holds (L, U, option arrays) */
@@ -312,6 +315,7 @@ int main(int argc, char **argv) {
             if (b->nrhs > 0) pr_elems("X", b->val, (long)b->ld * b->nrhs); else fprintf(out, "X 0\n");
             dump_LU(); fprintf(out, "end\n");
         }
+        else if (!strcmp(tok, "workfill")) { workfill_mode = rd_int(); workfill_seed = (unsigned long long)rd_int(); }
         else if (!strcmp(tok, "gssvx")) {
             /* gssvx A B nprocs fact trans refact usepr u panel relax symm lwork */
             int ai = rd_int(), bi = rd_int(); int_t nprocs = rd_int(); int fact = rd_int(), trans = rd_int(), refact = rd_int(), usepr = rd_int();
@@ -322,7 +326,17 @@ int main(int argc, char **argv) {
             opts.nprocs = nprocs; opts.fact = fact; opts.trans = trans; opts.refact = refact; opts.panel_size = panel; opts.relax = relax;
             opts.diag_pivot_thresh = u; opts.usepr = usepr; opts.drop_tol = 0.0; opts.SymmetricMode = symm; opts.PrintStat = NO;
             opts.perm_c = perm_c; opts.perm_r = perm_r;
-            if (lwork > 0) { if (refact == NO && fact != FACTORED) { free(userwork); userwork = malloc(lwork + 2 * REDZ); memset(userwork, 0xA5, lwork + 2 * REDZ); userwork_len = lwork; userwork_alloc = lwork + 2 * REDZ; }
+            if (lwork > 0) { if (refact == NO && fact != FACTORED) {
+                    if (workfill_mode == 3 && userwork && userwork_alloc >= lwork + 2 * REDZ) {
+                        /* the caller hands the SAME buffer to the next first-time call, contents as the previous call left them */
+                        memset(userwork, 0xA5, REDZ); memset((char *)userwork + REDZ + lwork, 0xA5, REDZ); userwork_len = lwork;
+                    } else {
+                        free(userwork); userwork = malloc(lwork + 2 * REDZ); memset(userwork, 0xA5, lwork + 2 * REDZ); userwork_len = lwork; userwork_alloc = lwork + 2 * REDZ;
+                        if (workfill_mode == 2) memset((char *)userwork + REDZ, 0, lwork);
+                        if (workfill_mode == 1) { /* arbitrary contents: small integers, as index arrays of an earlier, unrelated use would leave */
+                            int *w = (int *)((char *)userwork + REDZ); unsigned long long x = workfill_seed * 6364136223846793005ULL + 1442695040888963407ULL;
+                            for (long i = 0; i < lwork / (long)sizeof(int); i++) { x = x * 6364136223846793005ULL + 1442695040888963407ULL; w[i] = (int)((x >> 33) % (unsigned long long)(2 * n + 3)) - 1; } }
+                    } }
                 opts.work = (char *)userwork + REDZ; opts.lwork = lwork; }
             else { opts.work = 0; opts.lwork = lwork; if (refact == NO && fact != FACTORED) userwork_len = 0; }
             /* a call without caller workspace after one with: the caller has taken its old buffer back and filled it with its own data */
